@@ -93,6 +93,30 @@ D.update({
  "C20-r4-m3": ("C20", "the time box is measured with SystemTime and `.elapsed().expect(..)`", "the wall clock stepping back between the start of a loop and one of its per-pass checks"),
 })
 
+D.update({
+ "C01-r5-m1": ("C01", "--level and --curve get a clap possible-values list without ignore_case, in front of the case-insensitive FromStr", "a level or curve spelled in another case than the documented one (`--level info`, `--curve bn254`): exit status 2, no summary"),
+ "C01-r5-m2": ("C01", "a validation loop expands every anonymous-component input a second time, per nesting level", "anonymous components nested about 16 deep or more in input position (2^depth expansions)"),
+ "C01-r5-m3": ("C01", "main returns anyhow::Result and uses `?` on the SARIF write in front of the summary", "--sarif-file and a write failure: reports printed, no summary line"),
+ "C02-r5-m1": ("C02", "`continue` for files without definitions, in front of the append of the file's own reports", "a named file with an unsupported pragma (or an unresolvable include) and no definition of its own"),
+ "C02-r5-m2": ("C02", "tuple declarations with a literal initialiser are split by `zip` in the grammar action", "a length mismatch in `var (a, b) = (1, 2, 3)` / `signal (s, t) <== (..)`"),
+ "C02-r5-m3": ("C02", "unique_vars skips bodies without declarations (and with them the parameter collision check); the 'already tracked' assert becomes keep-first", "duplicate parameter names on a definition whose body declares nothing"),
+ "C03-r5-m1": ("C03", "clap `default_value_if(\"verbose\", \"true\", \"INFO\")` on --level", "-v without --level and an info-level finding"),
+ "C03-r5-m2": ("C03", "analyze_function and analyze_template folded into one method that asks `is_template(name)`", "a function and a template with one name: the template is analysed twice, the function never"),
+ "C03-r5-m3": ("C03", "parse errors of files that are not user inputs are dropped in parse_files", "an included-only file that resolves but cannot be read (location-less P1000)"),
+ "C14-r5-m1": ("C14", "phis are kept sorted by variable name; the position scan walks past ordinary assignments", "a join block that starts with an assignment to a name sorting before the phi variable (an `if` last in a `for` body)"),
+ "C14-r5-m2": ("C14", "an array element read with no version in scope takes 'the latest version' instead of failing", "an uninitialised array written in a sibling branch and read on a path without a dominating write"),
+ "C14-r5-m3": ("C14", "variables_written consults a block-level cache that is not refreshed when phis are prepended", "an inner join block without local writes inside an outer if / while, and a read after the outer join"),
+ "C17-r5-m1": ("C17", "definitions are analysed in source order; a lookup from another template lifts a cheap CFG (no propagation) that is later reused for the template's own analysis", "template A instantiates template B of the user files and A comes first (definition or file order)"),
+ "C17-r5-m2": ("C17", "a function and a template with one name exclude each other in TemplateLibrary::new (ported to the tree after the duplicate-definition repair)", "a function and a template sharing a name: which is analysed depends on their order"),
+ "C17-r5-m3": ("C17", "source files are read with one read(2) into a buffer sized from the metadata", "a short read, or a file whose st_size is 0"),
+ "C19-r5-m1": ("C19", "the cached stdout writer drops reports whose (id, message, byte ranges) were seen before, file not in the key", "the same unresolvable include at the same byte offset in two files"),
+ "C19-r5-m2": ("C19", "add_primary skips labels with an empty range", "an included-only file that ends inside a comment or a definition: its parse error loses its location and passes the per-file filter"),
+ "C19-r5-m3": ("C19", "source files are read with one read(2)", "a short read on an included file"),
+ "C20-r5-m1": ("C20", "the division pass treats a divisor without a degree as a constant (`map_or(true, ..)`)", "a degree cut before the divisor of a `<--` division has a degree"),
+ "C20-r5-m2": ("C20", "the value rule of the inline switch negates the test for field-element conditions", "an inline switch whose condition is a known field element (fixpoint and most cuts)"),
+ "C20-r5-m3": ("C20", "into_ssa returns early on a value time-out, skipping degree propagation and the final cache_variable_use", "any value cut: every local is then reported as never read"),
+})
+
 matrix = {}
 mp = "/verif/seeded/MATRIX.txt"
 if os.path.exists(mp):
